@@ -235,15 +235,22 @@ pub fn run_c02(o: &Opts) {
       }
       // nodes whose text has a multi-byte character in front of a named descendant: a hole behind non-ASCII text
       let wide: Vec<N> = nodes.iter().filter(|n| !n.text().is_ascii() && n.children().count() >= 2 && subtree_size(n) <= 120).cloned().collect();
+      // lists that keep a dangling separator before their closer (`f(a, b, c,)`): a trailing run cut from them is
+      // followed in the pattern by two unnamed tokens
+      let dangling: Vec<N> = nodes.iter().filter(|n| {
+        let ch: Vec<N> = n.children().collect();
+        ch.len() >= 5 && !ch[ch.len() - 1].is_named() && ch[ch.len() - 2].text() == "," && ch.iter().filter(|c| c.is_named()).count() >= 2 && subtree_size(n) <= 60
+      }).cloned().collect();
       for k in 0..per_src {
-        let t = if k % 5 == 1 && !wide.is_empty() { rng.pick(&wide).clone() } else { rng.pick(&nodes).clone() };
+        let use_dangling = k % 6 == 2 && !dangling.is_empty();
+        let t = if use_dangling { out.count("node:list-with-dangling-separator"); rng.pick(&dangling).clone() } else if k % 5 == 1 && !wide.is_empty() { rng.pick(&wide).clone() } else { rng.pick(&nodes).clone() };
         if subtree_size(&t) > 120 {
           continue;
         }
         if !t.text().is_ascii() {
           out.count("node:has-multi-byte-text");
         }
-        let cut = if k % 4 == 0 { Cut { text: t.text().to_string(), holes: vec![], run: None } } else { make_cut(&t, &mut rng, k % 3 == 0) };
+        let cut = if use_dangling { make_cut(&t, &mut rng, true) } else if k % 4 == 0 { Cut { text: t.text().to_string(), holes: vec![], run: None } } else { make_cut(&t, &mut rng, k % 3 == 0) };
         // the precondition "the pattern parses to the same tree shape", decided independently of the implementation's
         // own pre-processing: on the tree-sitter parse of the text pre-processed as documented
         let precondition_holds = expected_pattern(lang, &cut.text).map(|ep| is_cut(&ep.node, &t, &cut)).unwrap_or(false);
